@@ -160,10 +160,29 @@ def run(ctx):
     async def _receive():  # never awaited
         return {'type': 'http.disconnect'}
 
-    def make_req(iface, qs, kb, csv):
+    def _build(iface, qs, kb, csv):
         if iface == 'wsgi':
             return falcon.Request(ft.create_environ(query_string=qs), options=OPTS[(kb, csv)])
         return falcon.asgi.Request(ft.create_scope(query_string=qs), _receive, options=OPTS[(kb, csv)])
+
+    def make_req(iface, qs, kb, csv):
+        # One request in eight is preceded by an EARLIER request with the same query string and options whose handler scribbles
+        # on its own params (adds a key, appends to a list, overwrites a value, stores through a getter): the mapping of the request
+        # under test is a function of its query string alone, so nothing of that may be visible in it.
+        if ctx.rng.random() < 0.125:
+            ctx.count('preceded_by_a_request_that_mutates_its_own_params')
+            try:
+                prev = _build(iface, qs, kb, csv)
+                for k in list(prev.params):
+                    v = prev.params[k]
+                    if isinstance(v, list):
+                        v.append('scribble')
+                    else:
+                        prev.params[k] = 'scribble'
+                prev.params['__scribble__'] = '1'
+            except Exception:  # noqa  (the request under test reports construction problems itself)
+                pass
+        return _build(iface, qs, kb, csv)
 
     # ------------------------------------------------------------- typed getters
     SENT = ('default-sentinel',)
